@@ -103,11 +103,22 @@ func ops() []operation {
 	add := func(name, kind string, f func(doc *gedcom.Document) bool) {
 		out = append(out, operation{name, kind, f})
 	}
-	for _, p := range []string{"I1", "I2", "I3"} {
+	for _, p := range []string{"I1", "I2", ""} { // "": a record without a pointer (an index must not learn the empty pointer)
 		p := p
 		add("AddIndividual("+p+")", "edit", func(d *gedcom.Document) bool {
-			if root(d, p) != nil {
+			if p != "" && root(d, p) != nil {
 				return false
+			}
+			if p == "" {
+				n := 0
+				for _, r := range d.Nodes() {
+					if r.Pointer() == "" && r.Tag().Tag() == "INDI" {
+						n++
+					}
+				}
+				if n > 0 {
+					return false
+				}
 			}
 			d.AddIndividual(p, gedcom.NewNameNode("New /"+p+"/"))
 			return true
@@ -154,6 +165,19 @@ func ops() []operation {
 			return true
 		})
 	}
+	add("SetHusband(F1,pointer-less)", "edit", func(d *gedcom.Document) bool {
+		var who *gedcom.IndividualNode
+		for _, r := range d.Nodes() {
+			if i, ok := r.(*gedcom.IndividualNode); ok && i.Pointer() == "" {
+				who = i
+			}
+		}
+		if famOf(d, "F1") == nil || who == nil {
+			return false
+		}
+		famOf(d, "F1").SetHusband(who)
+		return true
+	})
 	add("SetHusband(F1,nil)", "edit", func(d *gedcom.Document) bool {
 		if famOf(d, "F1") == nil {
 			return false
@@ -445,7 +469,7 @@ func views(doc *gedcom.Document) map[string]string {
 		sort.Strings(out)
 		return strings.Join(out, ",")
 	})
-	for _, p := range []string{"I1", "I2", "I3", "F1", "F2", "N1", "ZZ"} {
+	for _, p := range []string{"I1", "I2", "I3", "F1", "F2", "N1", "ZZ", ""} {
 		p := p
 		v["NodeByPointer("+p+")"] = safe(func() string { return path(doc, doc.NodeByPointer(p)) })
 	}
